@@ -110,12 +110,15 @@ CHECKS = {
             "byte outside elements 0..n-1 is reported with array, direction and offset.",
             "entitlement of the resampling/upsampling loads follows the opcode table's index expressions; declared alignments larger than the element size prevent flush placement of the last byte; generated-C path not run under guard pages",
             "DESIGN.md 4/C03", True),
-    "C02": ("xemu", "exploration",
+    "C02": ("xemu+xrefprog", "exploration",
             "exhaustive enumeration of operand tables per opcode on the emulation path against an independently written reference interpreter, plus literal evaluation of the documented pseudo code",
             "Every non-float opcode in every form (x1/x2/x4, array/constant/parameter operand) is emulated over all 8/16-bit operand values, "
             "all byte pairs, 16-bit pairs (boundary x all in quick, all 2^32 in thorough), all boundary pairs for 32/64-bit lanes, every "
             "shift count, accumulation lengths and load index functions; each element is compared with ref/orcref.h; prefixes n=1..48 must "
-            "reproduce the full run; the live table is compared with doc/opcode_table.xml (sizes, presence, pseudo code).",
+            "reproduce the full run; the live table is compared with doc/opcode_table.xml (sizes, presence, pseudo code). Float opcodes on the "
+            "emulation path likewise. Program level: 41 k multi-instruction integer programs (all L2 pairs, L3 chains, L1, and family LS: one scalar "
+            "feeding two instructions of different element width) are interpreted from their descriptor with the same reference and compared "
+            "with what orc_executor_emulate leaves.",
             "the reference encodes my reading of the opcode reference (assumptions listed in the evidence); 32/64-bit lanes on boundary alphabets",
             "DESIGN.md 4/C02", True),
     "C18": ("xemu+xprog", "exploration",
@@ -147,7 +150,7 @@ CHECKS = {
             "Every program of levels L1, L4, L5 (thorough: + L2, L3) compiled for sse, avx, mmx under every vector of {64,32-bit} x frame pointer x "
             "{long, short jumps} (thorough: + every feature-bit subset): the listing must assemble, and its disassembly must equal the disassembly of "
             "OrcCode bytes - mnemonics, registers, memory operands, immediates; branch targets as instruction indices.",
-            "GNU as/objdump 2.40 are the reference; NEON/MIPS not compared (no cross assembler)",
+            "GNU as/objdump 2.40 are the reference for x86; clang 14's integrated assembler for 32-bit NEON and MIPS (byte comparison modulo the nop and single-register push/pop encodings); AArch64/PowerPC listings are outside the property's quantifier",
             "DESIGN.md 4/C12", True),
     "C11": ("xasm+xprog", "exploration",
             "bounded exhaustive enumeration of the flag-vector lattice x programs; ISA level of every distinct emitted instruction form derived from GNU as -march gating; every 64-bit subset's code run against emulation",
@@ -220,11 +223,13 @@ def main():
             {"name": "xmemcpy", "path": "engines/xmemcpy.c", "serves_properties": ["C07"],
              "kind_free_text": "orc_memcpy/orc_memset vs memcpy/memset over every length x destination/source offset, library wrappers and Orc-free bodies"},
             {"name": "xasm", "path": "engines/xasm.c", "serves_properties": ["C11", "C12"],
-             "kind_free_text": "program x flag-vector enumerator dumping listing + code bytes (C12) or distinct instruction forms per flag vector (C11); lib/vasm.py drives GNU as/objdump"},
+             "kind_free_text": "program x flag-vector enumerator dumping listing + code bytes (C12, C11 encoding leg) or distinct instruction forms per flag vector (C11); lib/vasm.py drives GNU as/objdump, lib/vcross.py clang as ARM/MIPS assembler"},
             {"name": "xcomp", "path": "engines/xcomp.c", "serves_properties": ["C05"],
              "kind_free_text": "operand-kind / limit / flag space enumerator compiling for every registered target (ASan+bounds, supervised worker, watchdog)"},
             {"name": "xtext", "path": "engines/xtext.c", "serves_properties": ["C15"],
              "kind_free_text": "independent .orc printer over a formatting cross product + field-by-field comparison of parsed program and API twin"},
+            {"name": "xrefprog", "path": "engines/xrefprog.c", "serves_properties": ["C02"],
+             "kind_free_text": "program-level reference interpreter: program descriptors evaluated element by element with ref/orcref.h against orc_executor_emulate"},
             {"name": "xemu", "path": "engines/xemu.c", "serves_properties": ["C02", "C18"],
              "kind_free_text": "per-opcode operand-table enumerator on a chosen path against ref/orcref.h"},
             {"name": "xmem", "path": "engines/xmem.c", "serves_properties": ["C03"],
